@@ -104,7 +104,7 @@ def rule_header_once(ctx, cfg, r):
         r.ok(f.name, "header-args", "header_from_flags(params.flags, params.window_bits_max)")
     else:
         r.fail(f.name, "header-args", "header is not computed from (params.flags, params.window_bits_max): %s %s" % (a0, a1))
-    ev = paths.Evaluator(c, effects=E, max_blocks=8)
+    ev = paths.Evaluator(c, effects=E, max_blocks=16)
     rows = ev.run(f, start_bb=bb)
     okb = False
     for x in rows:
@@ -141,6 +141,7 @@ def rule_trailer(ctx, cfg, r):
     FIN = discr(c, "TDEFLFlush", "Finish")
     ZL = c.const_int("deflate_flags::TDEFL_WRITE_ZLIB_HEADER")
     heads = set()
+    heads_b = set()
     nfin = 0
     for row in rows or []:
         if vs(row, ("discr", P(3))).single() != FIN:
@@ -163,8 +164,39 @@ def rule_trailer(ctx, cfg, r):
                 r.ok(f.name, "trailer-raw", "raw: nothing after the final block")
         elif zl == 1:
             rng = [e for e in calls if e[1].endswith("into_iter") and e[2][0][0] == "agg" and e[2][0][1].endswith("ops::range::Range")]
+            # second idiom: iterate over the big-endian bytes of the checksum (`adler32.to_be_bytes()`)
+            def be_bytes(t):
+                for st in paths.subterms(t):
+                    if st and st[0] == "array" and len(st[1]) == 4:
+                        els = [q[1] if q[0] == "cast" else q for q in st[1]]
+                        ok4 = paths.is_load_of(els[3], "adler32", "ParamsOxide")
+                        for k, sh in ((0, 24), (1, 16), (2, 8)):
+                            ok4 = ok4 and els[k][0] == "bin" and els[k][1] == "Shr" and is_const(els[k][3]) and const_val(els[k][3]) == sh and \
+                                paths.is_load_of(els[k][2], "adler32", "ParamsOxide")
+                        if ok4:
+                            return True
+                return False
+            def arg_val(a):
+                # `(&local).iter()`: look at what the local holds on this path
+                if a and a[0] == "ref" and isinstance(a[1], tuple) and a[1] and a[1][0] == "local":
+                    return row.store.get(a[1], a)
+                return a
+            arr = [e for e in calls if e[1].endswith(("::iter", "into_iter")) and any(be_bytes(arg_val(a)) for a in e[2])]
+            if arr:
+                if row.outcome[0] == "backedge":
+                    heads_b.add(row.outcome[1])
+                    e = pb[0] if pb else None
+                    okv = e is not None and len(pb) == 1 and is_const(e[2][2]) and const_val(e[2][2]) == 8 and \
+                        paths.term_contains(e[2][1], lambda y: y[0] == "call" and y[1].endswith("::next"))
+                    if okv:
+                        r.ok(f.name, "trailer-first", "trailer bytes = params.adler32.to_be_bytes(), one 8-bit field per byte")
+                    else:
+                        r.fail(f.name, "trailer-first", "the loop over the big-endian checksum bytes does not emit each byte as one 8-bit field")
+                else:
+                    r.ok(f.name, "trailer-exit", None)
+                continue
             if not rng or [const_val(q) for q in rng[0][2][0][4]] != [0, 4]:
-                r.fail(f.name, "trailer-count", "the trailer loop does not run over 0..4")
+                r.fail(f.name, "trailer-count", "the trailer loop does not run over 0..4 (nor over the big-endian bytes of the checksum)")
                 continue
             if row.outcome[0] == "backedge":
                 heads.add(row.outcome[1])
@@ -184,6 +216,17 @@ def rule_trailer(ctx, cfg, r):
     if not nfin:
         r.fail(f.name, "finish-arm", "no Finish rows in the flush dispatch")
         return
+    for h in heads_b:
+        ev = paths.Evaluator(c, effects=ctx.effects(cfg), stop_blocks=[join] if join is not None else [])
+        for x in ev.run(f, start_bb=h):
+            pb = [e for e in x.effects if e[0] == "call" and e[1].endswith("put_bits")]
+            if x.outcome[0] == "backedge":
+                good = len(pb) == 1 and is_const(pb[0][2][2]) and const_val(pb[0][2][2]) == 8 and \
+                    paths.term_contains(pb[0][2][1], lambda y: y[0] == "call" and y[1].endswith("::next"))
+                r.ok(f.name, "trailer-iter", "each iteration emits the next checksum byte as an 8-bit field") if good else \
+                    r.fail(f.name, "trailer-iter", "a trailer iteration does not emit exactly the next checksum byte (8 bits)")
+            elif pb:
+                r.fail(f.name, "trailer-after", "bits are emitted after the 4 trailer bytes: %s" % [tstr(e[2][1]) for e in pb])
     # generic iteration: put_bits((a >> 24) & 0xFF, 8); a <<= 8
     for h in heads:
         ev = paths.Evaluator(c, effects=ctx.effects(cfg), stop_blocks=[join] if join is not None else [])
